@@ -34,6 +34,7 @@ def check(repo, tier="quick"):
     res.rule("C04.c", "coefficient, orientation, level, component and slice ordering of the encoder = the decoder's read order; quantisation matrix serialisation order = quant_matrix read order")
     res.rule("C04.e", "the forward transform is the structural inverse of the inverse transform (every obligation of the C11 check, re-evaluated here)")
     res.rule("C04.f", "lossless slice lengths fit their field: the slice size scaler is at least ceil(longest component length / largest value of the slice length field), and every component length is divided by it rounding up")
+    res.rule("C04.g", "the picture handed to the in-place picture_encode has rows that are distinct objects whatever the caller supplied: it is rebuilt row by row (a whole-object copy/deepcopy preserves rows shared inside the caller's picture, which the per-sample in-place updates would then modify once per row index)")
     res.rule("C04.d", "the lossless path builds every slice with the literal qindex 0 and never calls a quantiser")
 
     rule_a(repo, res)
@@ -42,6 +43,8 @@ def check(repo, tier="quick"):
     rule_d(repo, res)
     rule_e(repo, res)
     rule_f(repo, res)
+    rule_g(repo, res)
+    res.floor("C04.g", 2)
     res.floor("C04.e", 30)
     res.floor("C04.f", 3)
     res.floor("C04.a", 6)
@@ -468,3 +471,60 @@ def rule_f(repo, res):
                 if isinstance(p, ast.Assign) and isinstance(p.targets[0], ast.Tuple) and len(p.targets[0].elts) == 2:
                     callers += 1
     res.check(callers >= 1, "C04.f", "lossless:scaler-used-by-caller", where, "no caller unpacks (slice_size_scaler, transform_data)", by="%d caller(s) unpack the scaler" % callers)
+
+
+ROW_COPIERS = {"deepcopy", "copy.deepcopy", "list", "copy", "copy.copy"}
+
+
+def _row_fresh(e):
+    """e builds a new outer list whose every element is a new object copied from one row"""
+    if not (isinstance(e, ast.ListComp) and len(e.generators) == 1 and isinstance(e.generators[0].target, ast.Name)):
+        return False
+    r = e.generators[0].target.id
+    el = e.elt
+    if isinstance(el, ast.Call) and dotted(el.func) in ROW_COPIERS and len(el.args) == 1 and dotted(el.args[0]) == r:
+        return True
+    if isinstance(el, ast.Subscript) and dotted(el.value) == r and isinstance(el.slice, ast.Slice) and el.slice.lower is None and el.slice.upper is None:
+        return True
+    if isinstance(el, ast.ListComp) and len(el.generators) == 1 and dotted(el.generators[0].iter) == r:
+        return True
+    return False
+
+
+def rule_g(repo, res):
+    # in-place per-sample updaters exist in the encoder pipeline (the reason the rule is needed)
+    em = repo.mod("pseudocode.picture_encoding")
+    inplace = []
+    for name, fn in em.funcs.items():
+        params = set(a.arg for a in fn.args.args)
+        for n in ast.walk(fn):
+            t = n.target if isinstance(n, ast.AugAssign) else (n.targets[0] if isinstance(n, ast.Assign) else None)
+            if isinstance(t, ast.Subscript) and isinstance(t.value, ast.Subscript) and isinstance(t.value.value, ast.Name) and t.value.value.id in params:
+                inplace.append(name)
+                break
+    res.check(bool(inplace), "C04.g", "in-place-updaters", em.rel, "no in-place per-sample update found in the forward pipeline (rule would be vacuous)", by="in-place per-sample updates in %s" % sorted(inplace))
+    n_sites = 0
+    for mod in repo.modules.values():
+        if mod.name.endswith("pseudocode.picture_encoding"):
+            continue
+        for fn in [f for f in ast.walk(mod.tree) if isinstance(f, ast.FunctionDef)]:
+            for c in ast.walk(fn):
+                if not (isinstance(c, ast.Call) and dotted(c.func) == "picture_encode" and len(c.args) == 2):
+                    continue
+                tgt = repo.resolve(mod.name, "picture_encode")
+                if tgt is None or not tgt.mod.endswith("pseudocode.picture_encoding"):
+                    continue
+                n_sites += 1
+                a = c.args[1]
+                if isinstance(a, ast.Name):
+                    ds = [d for d in ast.walk(fn) if isinstance(d, ast.Assign) and any(isinstance(t, ast.Name) and t.id == a.id for t in d.targets)]
+                    if len(ds) == 1:
+                        a = ds[0].value
+                ok = False
+                if isinstance(a, ast.DictComp):
+                    ok = _row_fresh(a.value)
+                elif isinstance(a, ast.Dict):
+                    ok = bool(a.values) and all(_row_fresh(v) for v in a.values)
+                res.check(ok, "C04.g", "%s:picture_encode-argument" % fn.name, "%s:%s" % (mod.rel, fn.name), "picture_encode receives `%s`: a whole-object copy keeps rows that the caller's picture shares (e.g. [[v] * w] * h) shared, and the in-place offset removal / transform then updates the one row once per row index -- the encoding is not of the supplied picture" % short(c.args[1], 70), by="rebuilt row by row: every row is a new object")
+    if n_sites == 0:
+        raise AnalysisError("no call of picture_encode outside the pseudocode package")
